@@ -560,3 +560,17 @@ func oneLine(s string) string {
 
 	return s
 }
+
+// RecordExternal lets enumeration-style tests (no rapid) feed the evidence statistics.
+func RecordExternal(sub string, c any, v Verdict) {
+	getStats(sub).record(canon(c), c, v)
+}
+
+// FailExternal records a failing enumerated case as the replay file and fails the test.
+func FailExternal(t *testing.T, sub string, c any, v Verdict) {
+	st := getStats(sub)
+	st.Failed = true
+	st.FailMsg = v.Msg
+	writeLast(sub, canon(c))
+	t.Fatalf("%s violated: %s", sub, v.Msg)
+}
